@@ -59,8 +59,22 @@ def discover():
         ann = {}
         is_proof = False
         unwind = None
+        cur_macro = None
+        macro_ann = {}
         with open(os.path.join(src, fn)) as f:
             for line in f:
+                mm = re.match(r"^macro_rules!\s+(\w+)", line)
+                if mm:
+                    cur_macro = mm.group(1)
+                if cur_macro and is_proof and re.match(r"^\s*fn \$\w+\(", line):
+                    macro_ann[cur_macro] = (dict(ann), unwind)
+                    ann, is_proof, unwind = {}, False, None
+                    continue
+                mi = re.match(r"^(\w+)!\((c(\d\d)_\w+),", line)
+                if mi and mi.group(1) in macro_ann:
+                    a2, uw = macro_ann[mi.group(1)]
+                    out.append(_mk_harness(mi.group(2), module, os.path.join(src, fn), "C" + mi.group(3), uw, a2))
+                    continue
                 m = ANN_RE.match(line)
                 if m:
                     k, v = m.group(1), m.group(2).strip()
@@ -77,39 +91,43 @@ def discover():
                     continue
                 mf = FN_RE.match(line)
                 if mf and is_proof:
-                    h = Harness()
-                    h.name = mf.group(1)
-                    h.module = module
-                    h.file = os.path.join(src, fn)
-                    h.prop = "C" + mf.group(2)
-                    h.unwind = unwind
-                    for tok in ann.get("ob", "").split():
-                        if "=" in tok:
-                            k, v = tok.split("=", 1)
-                        else:
-                            k, v = tok, "1"
-                        if k == "tier":
-                            h.tier = v
-                        elif k == "timeout":
-                            h.timeout = int(v)
-                        elif k == "mem":
-                            h.mem = int(v)
-                        elif k == "features":
-                            h.features = v.split(",")
-                        elif k == "kf":
-                            h.kf = v.split(",")
-                        elif k == "args":
-                            h.args = v.split(",")
-                    h.desc = ann.get("desc", "")
-                    h.bounds = ann.get("bounds", "")
-                    h.funcs = ann.get("funcs", "")
-                    h.outside = ann.get("outside", "")
-                    out.append(h)
+                    out.append(_mk_harness(mf.group(1), module, os.path.join(src, fn), "C" + mf.group(2), unwind, ann))
                 if line.strip() and not line.strip().startswith("//"):
                     ann = {}
                     is_proof = False
                     unwind = None
     return out
+
+
+def _mk_harness(name, module, file, prop, unwind, ann):
+    h = Harness()
+    h.name = name
+    h.module = module
+    h.file = file
+    h.prop = prop
+    h.unwind = unwind
+    for tok in ann.get("ob", "").split():
+        if "=" in tok:
+            k, v = tok.split("=", 1)
+        else:
+            k, v = tok, "1"
+        if k == "tier":
+            h.tier = v
+        elif k == "timeout":
+            h.timeout = int(v)
+        elif k == "mem":
+            h.mem = int(v)
+        elif k == "features":
+            h.features = v.split(",")
+        elif k == "kf":
+            h.kf = v.split(",")
+        elif k == "args":
+            h.args = v.split(",")
+    h.desc = ann.get("desc", "")
+    h.bounds = ann.get("bounds", "")
+    h.funcs = ann.get("funcs", "")
+    h.outside = ann.get("outside", "")
+    return h
 
 
 # ------------------------------------------------------------------------------------------------
